@@ -247,6 +247,23 @@ ADDED3 = {
 }
 
 # rules of rounds 6 and 7 and of the defects repaired after them (DESIGN.md section 12, 13)
+ADDED5 = {
+    'C01': 'Round 8: a derived sequent is accepted only if each of its hypotheses is among the stated ones (K19, shared with P3).',
+    'C06': 'Round 8: every Z3 variable made at the type of a binder is constrained to be non-negative under the natural-number test of its branch (Z12).',
+    'C07': 'Round 8: every constant built with an explicit type is unified with the type the theory declares for it, parameters of the builder taken as fixed (W9).',
+    'C08': 'Round 8: classes of type variables are joined only through unify, which looks the representatives up first (U11, who-may-call).',
+    'C09': 'Round 8: the instantiation is asked about v.name only for a v known to be schematic (N14).',
+    'C10': 'Round 8: after a part of the term was normalised, no decision looks at the part as written (V12).',
+    'C11': 'Round 8: the self-occurrence test of a definition compares with the name the head constant is built with (D12).',
+    'C13': 'Round 8: after opening quantifiers, lines are counted from the variables opened, not from the names given (A15).',
+    'C14': 'Round 8: no normal exit of a step that inserts a line is reachable without the insertion (S12).',
+    'C16': 'Round 8 and repairs: a one-term constraint with coefficient zero is decided by its constant (O11); every sub-problem of branch and bound keeps all constraints of its parent (O12).',
+    'C17': 'Round 8: of the two halves of an explanation path exactly the second is reversed (G10).',
+    'C18': 'Round 8: argument lists walked in parallel are never filed in a dictionary keyed by one component (R26).',
+    'C19': 'Round 8: a branch that admits a sum and a difference alike reads the operator again before combining the parts (E11).',
+    'C20': 'Round 8: the map from variable names to state indices, read off its syntax tree on a sample of names, is injective (P10).',
+}
+
 ADDED4 = {
     'C01': 'Rounds 6-7: a primitive rule takes a premise apart only behind a head test of that proposition (K17); the type of a bound variable is looked up only for an index that is neither negative nor too large (K18).',
     'C02': 'Rounds 6-7: each kind of step takes its justification from the checking theory, the dispatch table or the registered macro (P12).',
@@ -283,6 +300,8 @@ def main():
             text = text + ' ' + ADDED3[pid]
         if pid in ADDED4:
             text = text + ' ' + ADDED4[pid]
+        if pid in ADDED5:
+            text = text + ' ' + ADDED5[pid]
         checks.append({
             'property_id': pid,
             'quick_cmd': './check %s --tier quick' % pid,
